@@ -48,7 +48,7 @@ def sibling_spec(target):
 def histories(draw, target=None, tp=False):
     steps = []
     for _ in range(draw(st.integers(0, 3))):
-        k = draw(st.sampled_from(["objects", "objects", "compile", "options", "sibling", "tp", "self", "self", "same-objects"]))
+        k = draw(st.sampled_from(["objects", "compile", "options", "sibling", "tp", "self", "self", "same-objects", "same-objects", "same-objects"]))
         if k == "same-objects" and draw(st.booleans()):
             # another generated form compiled earlier with the very same options *object* as the target (an API caller reusing one
             # options dictionary): options must not be modified by a compilation
